@@ -82,9 +82,15 @@ class PCtx:
                     "b": x / math.tanh(0.4)}
         return {"var": self.new_var("float", x)}
 
-    def int_expr(self, x: int):
+    def int_expr(self, x: int, duration=False):
         d = self.draw
-        t = d(st.sampled_from(["v", "v", "add", "mul", "floordiv", "mod", "ceil", "floor", "round", "cast", "item"]))
+        t = d(st.sampled_from(["v", "v", "add", "mul", "floordiv", "mod", "ceil", "floor", "round", "cast", "item"]
+                              + (["frac"] if duration else [])))
+        if t == "frac":
+            # a duration that does not come out whole (x + 0.6, or just below x + 1): the API
+            # truncates it, for a plain number and for what a variable evaluates to alike
+            f = d(st.sampled_from([0.6, 0.5, 0.99]))
+            return {"fn": "add", "a": {"var": self.new_var("float", x - 1.5)}, "b": 1.5 + f}
         if t == "item":
             n = d(st.integers(1, 3))
             i = d(st.integers(0, n - 1))
@@ -122,7 +128,7 @@ def param_wf(pc: PCtx, wf: dict, nonneg: bool):
             if _num(wf.get(f)) and pc.maybe():
                 out[f] = pc.float_expr(float(wf[f]), nonneg)
         if _num(wf.get("d")) and pc.maybe():
-            out["d"] = pc.int_expr(int(wf["d"]))
+            out["d"] = pc.int_expr(int(wf["d"]), duration=True)
     elif k == "interp" and (pc.maybe() or pc.maybe()):
         vals = list(map(float, wf["values"]))
         n = len(vals)
@@ -155,7 +161,7 @@ def param_pulse(pc: PCtx, p: dict):
         if _num(p.get(f)) and pc.maybe():
             out[f] = pc.float_expr(float(p[f]), nonneg=(f == "amp"))
     if k == "const_pulse" and _num(p.get("d")) and pc.maybe():
-        out["d"] = pc.int_expr(int(p["d"]))
+        out["d"] = pc.int_expr(int(p["d"]), duration=True)
     for f in ("amp", "det"):
         if isinstance(p.get(f), dict):
             out[f] = param_wf(pc, p[f], nonneg=(f == "amp"))
@@ -179,7 +185,7 @@ def parametrized(draw, prog: dict, rate: int = 30, n_assign=(1, 3), custom_var=T
                 new[f] = pc.float_expr(float(op[f]), nonneg=(f == "amp_on"))
         for f in INT_FIELDS.get(o, []):
             if _num(op.get(f)) and op[f] > 0 and pc.maybe():
-                new[f] = pc.int_expr(int(op[f]))
+                new[f] = pc.int_expr(int(op[f]), duration=True)
         if o == "add" and isinstance(op.get("pulse"), dict):
             new["pulse"] = param_pulse(pc, op["pulse"])
         if o == "add_dmm" and isinstance(op.get("wf"), dict):
